@@ -1,5 +1,6 @@
 import SieveModel.Model.Lexer
 import SieveModel.Lemmas.Factory
+import SieveModel.Lemmas.FactorySet
 import SieveModel.Generated.Tables
 import SieveModel.Generated.FactoryData
 import SieveModel.Model.Show
@@ -20,6 +21,11 @@ Proved here:
   the parser insists on when it meets the same commands and arguments — succeeds with the same tree against
   any loaded list `L ⊇ r` (containing what was loaded globally during the call).  So the `require` the set
   renders names every extension any of its filters uses, and stays sufficient when further filters add to it.
+* `set_requirements_cover_every_filter`: the same for whole sets — after any sequence of `addfilter` / `updatefilter`
+  (succeeding or raising), `removefilter` and re-ordering / re-wrapping operations starting from an empty set, every filter
+  the set built is re-built with every check on against the requirement list *as it is now*: the list only grows
+  (`createFilter_grows`, also when the construction raises), so no later edit can make an earlier filter's extensions
+  disappear from the `require`.
 * `live_factory_tables_ok`: the table and the two dictionaries regenerated from `/repo` satisfy `tableOK`
   (kernel evaluation).
 * `quoted_value_is_one_string_token`: the lexer reads a quoted value as exactly one string token, whatever the
@@ -75,6 +81,18 @@ theorem requirements_cover_every_extension_used_live (reqs : List Bytes) (conds 
   (requirements_cover_every_extension_used (liveCfg []) rfl
     (by have := live_factory_tables_ok; exact this) reqs conds acts matchtype hacts r n h).2 r (fun _ hx => hx)
     (by intro x hx; simp [liveCfg] at hx)
+
+/-- the requirement list of a set covers every filter built in its history -/
+theorem set_requirements_cover_every_filter (cfg : Cfg) (hs : cfg.strict = none) (hT : tableOK cfg = true) (ops : List SOp) :
+    let st := runS cfg ops {}
+    ∀ b ∈ st.built, (∀ a ∈ b.d.acts, ActOK cfg a) →
+      createFilter (cfg.strictWith (st.reqs ++ cfg.gl)) b.start b.d.conds b.d.acts b.d.mt = (b.after, .ok b.node) :=
+  Factory.set_requirements_cover_every_filter cfg hs (tableOK_sound cfg hT) ops
+
+/-- the requirement list never shrinks, whatever the construction does -/
+theorem requirements_only_grow (cfg : Cfg) (reqs : List Bytes) (conds acts : List (List Val)) (matchtype : Bytes) :
+    ∀ x ∈ reqs, x ∈ (createFilter cfg reqs conds acts matchtype).1 :=
+  createFilter_grows cfg reqs conds acts matchtype
 
 /-- non-vacuity: `fileinto :copy` under a `:regex` header test — both extensions and the command's own end up required,
     and the strict construction against exactly that list gives the same tree; against a list without `copy` it fails -/
